@@ -5,7 +5,7 @@ import json, os, re, shutil, subprocess, sys
 pid, x = sys.argv[1], sys.argv[2]
 src = f"/root/seed/{pid}/{x}"
 dst = f"/verif/seeded/{pid}-{x}"
-logs = "".join(open(f).read() for f in ("/root/seed/confirm.log", "/root/seed/confirm2.log", "/root/seed/confirm3.log", "/root/seed/confirm4.log", "/root/seed/confirm5a.log", "/root/seed/confirm5b.log", "/root/seed/confirm5c.log", "/root/seed/confirm6a.log", "/root/seed/confirm6b.log", "/root/seed/confirm6c.log", "/root/seed/confirm6d.log", "/root/seed/confirm7a.log", "/root/seed/confirm7b.log", "/root/seed/confirm7c.log", "/root/seed/confirm7d.log", "/root/seed/confirm8a.log", "/root/seed/confirm8b.log", "/root/seed/confirm8c.log", "/root/seed/confirm8d.log") if os.path.exists(f))
+logs = "".join(open(f).read() for f in ("/root/seed/confirm.log", "/root/seed/confirm2.log", "/root/seed/confirm3.log", "/root/seed/confirm4.log", "/root/seed/confirm5a.log", "/root/seed/confirm5b.log", "/root/seed/confirm5c.log", "/root/seed/confirm6a.log", "/root/seed/confirm6b.log", "/root/seed/confirm6c.log", "/root/seed/confirm6d.log", "/root/seed/confirm7a.log", "/root/seed/confirm7b.log", "/root/seed/confirm7c.log", "/root/seed/confirm7d.log", "/root/seed/confirm8a.log", "/root/seed/confirm8b.log", "/root/seed/confirm8c.log", "/root/seed/confirm8d.log", "/root/seed/confirm9a.log", "/root/seed/confirm9b.log", "/root/seed/confirm9c.log", "/root/seed/confirm9d.log") if os.path.exists(f))
 line = [l for l in logs.splitlines() if l.startswith(f"== {pid}/{x} ")]
 if not line or "SEED-CONFIRMED" not in line[-1]:
     print("not confirmed:", pid, x, line[-1][:200] if line else "no log line"); sys.exit(1)
